@@ -49,7 +49,7 @@ func cloneCase(ac *authCase) *authCase {
 
 func genC03(c *Ctx) error {
 	c.ShardSize = 150
-	c.Notes["rule"] = "for valid signed two-argument requests (3 key types, single key and 2-of-2, four routes): every single-field tamper operator applied to every signed field (request id, chaincode, channel, both method arguments, nonce, signer keys) and to the function name: substitute one byte, truncate, extend, swap neighbouring fields, move 1..2 bytes across each boundary (class boundary_shift), change the nonce, re-target to the second deployed chaincode/channel with and without renaming the fields, deliver a request signed for chaincode tt on channel tt to another chaincode of the same channel (named vt, and named TT), replace / permute signer keys (with and without their signatures). The untampered request is included as control. Non-trivial: every tampered case."
+	c.Notes["rule"] = "for valid signed two-argument requests (3 key types, single key and 2-of-2, four routes): every single-field tamper operator applied to every signed field (request id, chaincode, channel, both method arguments, nonce, signer keys) and to the function name: substitute one byte, truncate, extend, swap neighbouring fields, move 1..2 bytes across each boundary (class boundary_shift), change the nonce, re-target to the second deployed chaincode/channel with and without renaming the fields - also with the proposal rewritten by the submitter so as to pass (the chaincode id inside the payload, which no peer checks, names the chaincode the request was signed for, or nothing; with and without a proposal header), deliver a request signed for chaincode tt on channel tt to another chaincode of the same channel (named vt, and named TT), replace / permute signer keys (with and without their signatures). The untampered request is included as control. Non-trivial: every tampered case."
 	aw, err := newAuthWorld()
 	if err != nil {
 		return err
@@ -187,10 +187,28 @@ func genC03(c *Ctx) error {
 					ac.cc, ac.ch, ac.deliverTo = dst.cc, "tt", dst.key
 					emit(ac, dst.class)
 				}
+				// ... and the same with the proposal written by the submitter so as to pass: the invocation spec inside the
+				// payload (which no peer checks; it routes by the header extension) names the chaincode the request was
+				// signed for, or names nothing; with and without a header
+				for _, v := range []struct {
+					spec     string
+					noHeader bool
+					class    string
+				}{{"tt", false, "other_chaincode_spec_names_signed_chaincode"}, {"-", false, "other_chaincode_spec_names_nothing"},
+					{"-", true, "other_chaincode_spec_names_nothing_no_header"}} {
+					ac = mk()
+					ac.cc, ac.ch, ac.deliverTo, ac.specName, ac.noHeader = "vt", "tt", "vt@tt", v.spec, v.noHeader
+					emit(ac, v.class)
+				}
 				// control: that chaincode accepts what was signed for it
 				aw.tag++
 				ac, _ = aw.c03BaseFor("tt", "vt", "tt", route, acc, "a"+strconv.Itoa(aw.tag), "bb7")
 				ac.cc, ac.ch, ac.deliverTo = "vt", "tt", "vt@tt"
+				emit(ac, "none")
+				// ... also from a proposal without header
+				aw.tag++
+				ac, _ = aw.c03BaseFor("tt", "vt", "tt", route, acc, "a"+strconv.Itoa(aw.tag), "bb7")
+				ac.cc, ac.ch, ac.deliverTo, ac.noHeader = "vt", "tt", "vt@tt", true
 				emit(ac, "none")
 				// signer keys
 				ac = mk()
